@@ -98,8 +98,41 @@ def ordering_stores(ctx, rid, f, cls, theory_call):
             tgt = t[1]
             if isinstance(tgt, tuple) and tgt[0] == '[]' and isinstance(tgt[1], tuple) and tgt[1][0] == '[]' and tgt[1][1] == cls + '::leqs':
                 stores.append((tgt[1][2], tgt[2], t[2], n))
-    if len(stores) < 8:
-        raise AnalysisBroken('%s: expected at least 8 ordering stores, found %d' % (f.id, len(stores)))
+    if len(stores) < 2:
+        raise AnalysisBroken('%s: expected ordering stores, found %d' % (f.id, len(stores)))
+    # every tau case stores the ordering variables, decided on the paths: the two atoms may meet on one instance when both tau are variables, or when
+    # the path has seen its inclusion / identity test succeed; such a path stores both directions, the others none
+    from ..tables import enum_paths
+    from ..expr import mentions
+    snodes = {id(n): (show(X), show(Y)) for X, Y, val, n in stores}
+    cover = {}
+    for p in enum_paths(f.body):
+        A = {0: None, 1: None}
+        guard = None
+        for c in p.conds:
+            if c[0] != 'if':
+                continue
+            t = canon(c[1], env)
+            m0, m1 = mentions(t, 'atm0'), mentions(t, 'atm1')
+            if m0 and m1:
+                guard = c[2] if guard is None else (guard and c[2])
+            elif (m0 or m1) and isinstance(t, tuple) and t[0] == 'dyncast':
+                A[0 if m0 else 1] = c[2]
+        got = {snodes[id(m)] for st in p.stmts for m in walk(st) if id(m) in snodes}
+        must = (A[0] is True and A[1] is True) or guard is True
+        key = (A[0], A[1])
+        if got:
+            cover[key] = True
+        if must and got != {('atm0', 'atm1'), ('atm1', 'atm0')}:
+            ctx.finding(rid, f.id, 'case:%s/%s' % key, '%s: on a path on which the two atoms may be on the same instance (tau variable: %s / %s) the ordering variables stored are %s; both directions are needed' % (
+                f.name, A[0], A[1], sorted(got)), loc=f.loc)
+        if not must and got and guard is False:
+            ctx.finding(rid, f.id, 'case:%s/%s' % key, '%s stores ordering variables on a path on which the two atoms cannot be on the same instance' % f.name, loc=f.loc)
+    for k in ((True, True), (True, False), (False, True), (False, False)):
+        ctx.instance(rid, [f.id, 'tau-case', 'variable' if k[0] else 'constant', 'variable' if k[1] else 'constant'], {'stores_both_directions_when_the_atoms_may_meet': bool(cover.get(k))})
+    missing = [k for k in ((True, True), (True, False), (False, True), (False, False)) if not cover.get(k)]
+    if missing:
+        raise AnalysisBroken('%s: no path that stores the ordering variables for the tau cases %s (variable / constant)' % (f.id, missing))
     groups = {}
     for i, (X, Y, val, n) in enumerate(stores):
         s = show(val)
